@@ -63,7 +63,7 @@ var profiles = map[string]Profile{
 	// C17: storage faults at every call position
 	"C17": {Name: "C17", MinOps: 8, MaxOps: 30, Keys: 8, EmptyVals: false, ObsEvery: 0,
 		Initials: []int64{-1, -1, 7},
-		W:        map[string]int{"set": 45, "rm": 15, "save": 6, "faults": 8, "faultsave": 8, "faultprune": 4, "faultimport": 3, "faultreopen": 3, "rollback": 2, "reopen": 2}},
+		W:        map[string]int{"set": 45, "rm": 15, "save": 6, "faults": 8, "faultsave": 8, "faultprune": 4, "faultlvfo": 4, "faultimport": 3, "faultreopen": 3, "rollback": 2, "reopen": 2}},
 	// C10: export / import of any retained version (empty tree, single leaf, inherited root, larger)
 	"C10": {Name: "C10", MinOps: 6, MaxOps: 45, Keys: 9, EmptyVals: true, ObsEvery: 0,
 		Initials: []int64{-1, -1, 1, 7},
